@@ -47,7 +47,7 @@ OpsC08 ==
     Back(FALSE, TRUE), Back(TRUE, FALSE), Back(TRUE, TRUE), Rev }
 \* C18: a simulated result, then any sequence of remove / insert calls
 OpsC18 == { Rem, Ins(<<0>>), Ins(<<1, 3>>), Ins(<<2, 40>>), Ins(<<3, 1>>), Ins(<<1, 2>>),
-            InsRel(<<-2, 0>>), InsRel(<<-1, 0, 1>>) }
+            InsRel(<<-2, 0>>), InsRel(<<-1, 0, 1>>), Ins(<<2, 2, 40>>) }
 HistsC18(n) ==
   { <<s>> \o h : s \in { Sim(<<>>, -1, TRUE, TRUE), Sim(<<1, 2>>, -1, TRUE, TRUE) },
                  h \in UNION { [1..k -> OpsC18] : k \in 1..n } }
